@@ -85,6 +85,7 @@ func ParseFileRecursively(file string) (<-chan directives.File, func(context.Con
 			if err != nil {
 				return err
 			}
+			cpr.VerifYield("parsed")
 			return cpr.Push(ctx, ch, res)
 		})
 		return wg.Wait()
@@ -113,6 +114,7 @@ func parseRec(ctx context.Context, wg *errgroup.Group, resCh chan<- directives.F
 				if err != nil {
 					return err
 				}
+				cpr.VerifYield("parsed")
 				return cpr.Push(ctx, resCh, res)
 			})
 		}
